@@ -164,6 +164,8 @@ pub struct AppCfg {
     pub budget_pct: u32,
     /// force small max_length values
     pub small_reads: bool,
+    /// do nothing on events except recording them (the check drives the API itself)
+    pub inert: bool,
 }
 
 impl Default for AppCfg {
@@ -185,6 +187,7 @@ impl Default for AppCfg {
             switch_pct: 35,
             budget_pct: 30,
             small_reads: false,
+            inert: false,
         }
     }
 }
@@ -239,6 +242,8 @@ pub struct App {
     pub events_seen: u64,
     /// configured datagram send buffer (for the admission model)
     pub dgram_send_buf: Option<usize>,
+    /// events recorded in inert mode
+    pub raw_events: Vec<Event>,
     /// streams whose last read stopped on its chunk budget, not on Blocked
     pending_reads: std::collections::BTreeSet<u64>,
     /// log of application-visible history (for C04 / C20 comparisons)
@@ -271,6 +276,7 @@ impl App {
             events_seen: 0,
             dgram_send_buf: None,
             pending_reads: Default::default(),
+            raw_events: Vec::new(),
             history: vec![],
             record_history: false,
         }
@@ -318,6 +324,17 @@ impl App {
 
     pub fn on_event(&mut self, conn: &mut Connection, ev: Event, led: &mut Ledger) {
         self.events_seen += 1;
+        if self.cfg.inert {
+            if matches!(ev, Event::Connected) {
+                self.connected = true;
+            }
+            if let Event::ConnectionLost { reason } = &ev {
+                self.lost_count += 1;
+                self.lost.push(format!("{reason:?}"));
+            }
+            self.raw_events.push(ev);
+            return;
+        }
         match ev {
             Event::HandshakeDataReady | Event::HandshakeConfirmed => {}
             Event::Connected => {
